@@ -291,4 +291,10 @@ var Controls = []Control{
 	{"C05", "wrapper-encoder adapter around a nil function", "errbase/encode.go", `\tif encoder == nil \{\n\t\t// Unregister, like the other Register functions do\.\n\t\tRegisterWrapperEncoderWithMessageType\(theType, nil\)\n\t\treturn\n\t\}\n`, "", "R-REGISTRY-CLOSURE"},
 	{"C09", "newlines held back outside the detail mode", "errbase/format_error.go", `\t\t\tif !s\.wantDetail \{\n\t\t\t\t// Outside of the detail mode.*?\t\t\t\tcontinue\n\t\t\t\}\n`, "", "R-WRITE-FAITHFUL"},
 	{"C09", "newline pass-through spelled flat", "errbase/format_error.go", `\t\tif c == '\\n' \{\n\t\t\tif !s\.wantDetail \{\n\t\t\t\t// Outside of the detail mode.*?\t\t\t\tcontinue\n\t\t\t\}\n`, "\t\tif c == '\\n' && !s.wantDetail {\n\t\t\ts.multiLine = true\n\t\t\ts.notEmpty = true\n\t\t\tcontinue\n\t\t}\n\t\tif c == '\\n' {\n", CleanVariant},
+	{"C12", "plain Formatter probed before SafeFormatter", "errbase/format_error.go", `\tcase SafeFormatter:\n(.*?)\tcase Formatter:\n(.*?)\tcase fmt\.Formatter:`, "\tcase Formatter:\n${2}\tcase SafeFormatter:\n${1}\tcase fmt.Formatter:", "R-FMT-PROBE-ORDER"},
+	{"C07", "barrier re-labels an inner barrier instead of nesting", "barriers/barriers.go", `\treturn &barrierErr\{maskedErr: err, smsg: msg\}\n\}\n\n// HandledWithMessagef`, "\tif b, ok := err.(*barrierErr); ok {\n\t\tnb := *b\n\t\tnb.smsg = msg\n\t\treturn &nb\n\t}\n\treturn &barrierErr{maskedErr: err, smsg: msg}\n}\n\n// HandledWithMessagef", "R-BARRIER-FRESH"},
+	{"C16", "captured stack trimmed before it is recorded", "withstack/withstack.go", `stack: callers\(depth \+ 1\)\}`, "stack: trimStack(callers(depth + 1))}\n}\n\nfunc trimStack(st *stack) *stack {\n\tif len(*st) > 64 {\n\t\tshort := (*st)[:64]\n\t\treturn &short\n\t}\n\treturn st", "R-STACK-RAW"},
+	{"C14", "Is method not asked for a nil receiver", "markers/markers.go", `\tif x, ok := err\.\(interface\{ Is\(error\) bool \}\); ok && x\.Is\(reference\) \{`, "\tif x, ok := err.(interface{ Is(error) bool }); ok && !reflect.ValueOf(err).IsZero() && x.Is(reference) {", "R-IS-DELEGATE"},
+	{"C18", "single telemetry layer hands out its own key slice", "telemetrykeys/telemetrykeys.go", `func GetTelemetryKeys\(err error\) \[\]string \{\n`, "func GetTelemetryKeys(err error) []string {\n\tif w, ok := err.(*withTelemetry); ok && errbase.UnwrapOnce(w.cause) == nil {\n\t\treturn w.keys\n\t}\n", "R-RESULT-FRESH"},
+	{"C19", "issue links provide details too", "issuelink/issuelink.go", `\n// IssueLink is the payload for a linked issue annotation\.`, "\n// ErrorDetail exposes the detail of the link.\nfunc (l IssueLink) ErrorDetail() string { return l.Detail }\n\n// IssueLink is the payload for a linked issue annotation.", "R-HINT-PROVIDERS"},
 }
